@@ -125,7 +125,7 @@ theorem step_inv_subAccept {c : Cfg} {s s' : St} (h : Inv s) (i : SubId) (rc : L
         exact inv_register h i _ hpc hj rfl rfl
       | panic =>
         simp only [Option.some.injEq] at hs; subst hs
-        have := inv_register h i { s.subs i with pc := .waiting, calls := (s.subs i).calls ++ rc, replayed := rc.length, regAt := some s.log.length } hpc hj rfl rfl
+        have := inv_register h i { s.subs i with pc := .waiting, calls := (s.subs i).calls ++ rc, replayed := rc.length, regAt := some s.log.length, storeAt := s.store } hpc hj rfl rfl
         exact inv_congr this rfl rfl rfl
       | err =>
         simp only [Option.some.injEq] at hs; subst hs
